@@ -996,3 +996,20 @@ Proof. intros H. exact (acquire_loop_fuel_ok _ _ _ _ _ _ _ extra H). Qed.
 Lemma fails_unfold D F CH c n e : fails D F CH c n e ->
   (e = F /\ len D < c + n) \/ (e = e_noprogress /\ may_stall CH = true).
 Proof. intros H. exact H. Qed.
+
+(* ROOM (DESIGN 5 C04 T): after the allocate/grow phases the buffer has room for the whole request, so
+   while the request is unsatisfied (wl < n) every Read is offered at least one byte of room:
+   an empty read is never the reader's own doing, and [may_stall] is a property of the script alone *)
+Lemma rinv_room D F CH c st n :
+  RInv D F CH c st -> len (win st) < n ->
+  let st2 := grow_phase (alloc_phase st n) n in
+  win st2 = win st /\ ri st2 = ri st /\ ri st2 + n <= cap st2 /\
+  (forall wl, wl < n -> 0 < cap st2 - (ri st2 + wl)).
+Proof.
+  intros HI Hn.
+  destruct (alloc_phase_frame st n) as (Hw1 & Hi1 & Hs1 & He1 & Hc1).
+  destruct (grow_phase_frame (alloc_phase st n) n) as (Hw2 & Hi2 & Hs2 & He2 & Hc2).
+  destruct (Hc1 (inv_cap _ _ _ _ _ _ HI) ltac:(lia)) as [Hcap1 Hpos1].
+  rewrite Hw1 in Hc2, Hcap1. destruct (Hc2 Hcap1 Hpos1 Hn) as [Hcap2 Hroom2].
+  cbv zeta. split; [congruence|]. split; [congruence|]. split; [exact Hroom2|]. intros wl Hwl. lia.
+Qed.
